@@ -27,7 +27,7 @@ enum { K_LETTERS, K_PRIV, K_SPOOF, K_ROUTE, K_VACK, K_REFUSED, K_LOGINS, K_TUNW,
 
 /* ---------------------------------------------------------------- alphabet */
 enum { L_V, L_VBAD, L_LOGIN, L_I, L_S, L_O, L_N, L_R, L_P, L_DATA, L_RAWLOGIN, L_RAWDATA, L_RAWPING, L_Z, L_TUN, L_TIME };
-enum { HK_CUR, HK_PREV, HK_OTHER, HK_PLUS1, HK_WRONG, HK_SHORT, HK_LASTONLY, HK_FIRSTONLY, HK_ALLBUTLAST, HK_ALLBUTFIRST };
+enum { HK_CUR, HK_PREV, HK_OTHER, HK_PLUS1, HK_WRONG, HK_SHORT, HK_LASTONLY, HK_FIRSTONLY, HK_ALLBUTLAST, HK_ALLBUTFIRST, HK_WRONG17, HK_WRONG18 };
 enum { RK_PLUS1, RK_PLAIN, RK_WRONG, RK_LASTONLY, RK_ALLBUTLAST };
 enum { SRC_A, SRC_B, SRC_C6, NSRC };
 typedef struct letter { int kind, src, u, arg; char name[48]; } letter;
@@ -48,7 +48,7 @@ static void addl(int kind, int src, int u, int arg, const char *fmt, ...)
 
 static void mk_alphabet(void)
 {
-	static const char *HKN[] = { "cur", "prev", "other", "cur+1", "wrong", "short", "only-last-byte-right", "only-first-byte-right", "all-but-last-byte-right", "all-but-first-byte-right" };
+	static const char *HKN[] = { "cur", "prev", "other", "cur+1", "wrong", "short", "only-last-byte-right", "only-first-byte-right", "all-but-last-byte-right", "all-but-first-byte-right", "wrong,17-bytes", "wrong,18-bytes" };
 	static const char *RKN[] = { "cur+1", "cur", "wrong", "only-last-byte-right", "all-but-last-byte-right" };
 	for (int s = 0; s < 2; s++) addl(L_V, s, -1, 0, "V(%s)", SRCN[s]);
 	if (is03) addl(L_VBAD, SRC_A, -1, 0, "Vbad(A)");
@@ -63,6 +63,8 @@ static void mk_alphabet(void)
 		addl(L_LOGIN, SRC_A, 5, HK_WRONG, "L(A,u5,wrong)");
 		addl(L_LOGIN, SRC_A, 0x80, HK_WRONG, "L(A,u128,wrong)");
 		addl(L_LOGIN, SRC_A, 0, HK_SHORT, "L(A,u0,short)");
+		/* wrong responses in messages of exactly 17 and 18 decoded bytes (the real client sends 19): the boundaries of the handler's length checks */
+		for (int u = 0; u < 2; u++) for (int hk = HK_WRONG17; hk <= HK_WRONG18; hk++) addl(L_LOGIN, SRC_A, u, hk, "L(A,u%d,%s)", u, HKN[hk]);
 	}
 	for (int s = 0; s < 2; s++) for (int u = 0; u < 2; u++) {
 		addl(L_I, s, u, 0, "I(%s,u%d)", SRCN[s], u);
@@ -221,7 +223,7 @@ static int apply(int li)
 		case HK_ALLBUTFIRST: ref_login(pw32, ch, h); h[0] ^= 0x80; break;
 		default: memset(h, 0x5a, 16); break;
 		}
-		plen = tm_login(pkt, id, QT, u, h, L->arg == HK_SHORT ? 12 : 16, cmc, DOM);
+		plen = tm_login(pkt, id, QT, u, h, L->arg == HK_SHORT ? 12 : L->arg == HK_WRONG17 ? 14 : L->arg == HK_WRONG18 ? 15 : 16, cmc, DOM);
 		break;
 	}
 	case L_I: plen = tm_short(pkt, id, QT, 'i', tm_5to8(u), -1, cmc, DOM); break;
@@ -476,10 +478,10 @@ static void key(uint64_t k[2])
 static const char *lname(int l) { return LT[l].name; }
 
 /* ---------------------------------------------------------------- start states */
-#define NSTART 5
+#define NSTART 6
 static const char *START_DESC[2][NSTART] = {
-	{ "fresh server, source check on", "fresh server, source check off (-c)", "A logged in on slot 0, source check on", "A and B logged in, source check off (-c)", "A logged in on slot 0, lazy mode with a ping held by the server, source check on" },
-	{ "fresh server", "A on slot 0 and B on slot 1 logged in", "A and B logged in, then A silent for 55 s while B pinged", "A logged in and switched to raw mode, B logged in", "A and B logged in, A in lazy mode with a ping held by the server" } };
+	{ "fresh server, source check on", "fresh server, source check off (-c)", "A logged in on slot 0, source check on", "A and B logged in, source check off (-c)", "A logged in on slot 0, lazy mode with a ping held by the server, source check on", "as before, but A talks from an IPv6 address that shares its first 32 bits with the third party C6" },
+	{ "fresh server", "A on slot 0 and B on slot 1 logged in", "A and B logged in, then A silent for 55 s while B pinged", "A logged in and switched to raw mode, B logged in", "A and B logged in, A in lazy mode with a ping held by the server", "as before, but A talks from an IPv6 address that shares its first 32 bits with the third party C6" } };
 
 static int find_letter(int kind, int src, int u, int arg)
 {
@@ -493,6 +495,9 @@ static void boot(int start)
 {
 	struct w_server_cfg c = { .topdomain = DOM, .password = PW, .my_ip = "10.0.0.1", .netmask = 29, .mtu = 1130, .check_ip = 1, .srand_seed = 1 };
 	if (is03 && (start == 1 || start == 3)) c.check_ip = 0;
+	/* start state 5: session A lives at an IPv6 address, the spoofer C6 in a neighbouring network of the same /32 */
+	if (start == 5) { vw_mkaddr6(&SRC[SRC_A], &SRCLEN[SRC_A], "2001:db8:aaaa:1::10", 4000); vw_mkaddr6(&SRC[SRC_C6], &SRCLEN[SRC_C6], "2001:db8:bbbb:2::66", 4002); }
+	else { vw_mkaddr(&SRC[SRC_A], &SRCLEN[SRC_A], "198.51.100.7", 4000); vw_mkaddr6(&SRC[SRC_C6], &SRCLEN[SRC_C6], "2001:db8::99", 4002); }
 	vw_init();
 	IMG_REGISTER(s);
 	W.hooks.on_sanitizer = on_san;
@@ -505,12 +510,12 @@ static void boot(int start)
 	if (is03) {
 		if (start >= 2) { pre(L_V, SRC_A, -1, 0); pre(L_LOGIN, SRC_A, 0, HK_CUR); }
 		if (start == 3) { pre(L_V, SRC_B, -1, 0); pre(L_LOGIN, SRC_B, 1, HK_CUR); }
-		if (start == 4) { pre(L_O, SRC_A, 0, 'l'); pre(L_P, SRC_A, 0, 0); }
+		if (start >= 4) { pre(L_O, SRC_A, 0, 'l'); pre(L_P, SRC_A, 0, 0); }
 	} else {
 		if (start >= 1) { pre(L_V, SRC_A, -1, 0); pre(L_LOGIN, SRC_A, 0, HK_CUR); pre(L_V, SRC_B, -1, 0); pre(L_LOGIN, SRC_B, 1, HK_CUR); }
 		if (start == 2) { pre(L_TIME, -1, -1, 55); pre(L_P, SRC_B, 1, 0); }
 		if (start == 3) { pre(L_RAWLOGIN, SRC_A, 0, RK_PLUS1); }
-		if (start == 4) { pre(L_O, SRC_A, 0, 'l'); pre(L_P, SRC_A, 0, 0); }
+		if (start >= 4) { pre(L_O, SRC_A, 0, 'l'); pre(L_P, SRC_A, 0, 0); }
 	}
 }
 
